@@ -41,8 +41,14 @@ def integration_and_binning(ctx, lentil, rng):
         w, v = rand_spec(rng, nonneg=False)
         lo = rng.choice(w)
         hi = rng.choice([x for x in w if x >= lo])
-        if rng.random() < 0.3:
+        r_ = rng.random()
+        if r_ < 0.3:
             lo, hi = lo - Fr(1, 4), hi + Fr(1, 4)            # bounds between samples: only samples inside count
+        elif r_ < 0.4:
+            # an interval that contains NO sample (beyond the range, or strictly between two neighbouring samples): the integral is 0
+            i_ = rng.randrange(len(w))
+            gap = (w[i_ + 1] - w[i_]) if i_ + 1 < len(w) else Fr(8)
+            lo, hi = w[i_] + gap / 4, w[i_] + gap / 2
         cases.append({'k': 'trapz', 's': sp.spec_json('nm', None, w, v), 'lo': sp.rj(lo), 'hi': sp.rj(hi)})
     for _ in range(250 if q else 2000):
         # spectra that are linear across every bin: kinks only at bin edges (centres spaced 2, edges at odd numbers)
@@ -56,6 +62,8 @@ def integration_and_binning(ctx, lentil, rng):
         w = list(edges)
         if rng.random() < 0.5:
             w = [w[0] - 2] + w + [w[-1] + 2]
+        if rng.random() < 0.12:
+            w = [edges[0] - 2, edges[-1] + 2]              # no sample inside the span of the bins: one straight line across all of them
         v = [Fr(rng.randint(0, 12), 4) for _ in w]
         if rng.random() < 0.15:
             # a pass band elsewhere: the spectrum is zero over the whole span of the bins (signal only in the outer samples, if any)
@@ -71,9 +79,18 @@ def integration_and_binning(ctx, lentil, rng):
         s = sp.real_spectrum(lentil, c['s'])
         if c['k'] == 'trapz':
             lo, hi = float(sp.rf(c['lo'])), float(sp.rf(c['hi']))
-            obs = s.integrate(lo, hi, method='trapz')
-            ev = float(sp.rf(e['val']))
             ctx.case(('trapz', str(c['s']['w']), lo, hi))
+            try:
+                obs = s.integrate(lo, hi, method='trapz')
+                # Simpson's rule over the same samples: a number too (0 when no sample lies inside, as for the trapezoid rule)
+                obs_s = s.integrate(lo, hi, method='simps')
+                nin = sum(1 for x in s.wave if lo <= x <= hi)
+                if not np.isfinite(obs_s) or (nin <= 1 and obs_s != 0):
+                    raise ArithmeticError('simps over %d samples gives %r' % (nin, obs_s))
+            except Exception as ex:
+                ctx.violation({'kind': 'integrate-raises', 'error': type(ex).__name__}, {'spectrum': c['s'], 'lo': lo, 'hi': hi, 'error': repr(ex)[:200]}, case={'case': c})
+                continue
+            ev = float(sp.rf(e['val']))
             ex_ = float(sp.rf(e['exact']))          # = ev when both bounds are samples; between samples either reading is accepted
             if abs(obs - ev) > 1e-10 * (1 + abs(ev)) and abs(obs - ex_) > 1e-10 * (1 + abs(ex_)):
                 ctx.violation({'kind': 'integrate-trapz'}, {'spectrum': c['s'], 'lo': lo, 'hi': hi, 'expected': ev, 'or_with_partial_intervals': ex_, 'observed': float(obs)},
@@ -106,8 +123,15 @@ def integration_and_binning(ctx, lentil, rng):
             full = s.integrate(method='trapz')
             if abs(full - float(sp.rf(e['all']))) > 1e-10 * (1 + abs(full)):
                 ctx.violation({'kind': 'integrate-trapz-default-bounds'}, {'spectrum': c['s']}, case={'case': c})
-            # linearity in the values for both rules (relational)
+            # linearity in the values for both rules (relational), with a real and with a complex factor
             for m in ('trapz', 'simps'):
+                import warnings as _w
+                with _w.catch_warnings():
+                    _w.simplefilter('ignore')
+                    sc_ = lentil.radiometry.Spectrum(s.wave, (2 - 3j) * np.asarray(s.value, dtype=float), waveunit='nm', valueunit=None)
+                    ic_, ir_ = sc_.integrate(method=m), s.integrate(method=m)
+                if abs(ic_ - (2 - 3j) * ir_) > 1e-9 * (1 + abs(ir_)):
+                    ctx.violation({'kind': 'integrate-not-linear', 'method': m, 'factor': 'complex'}, {'spectrum': c['s'], 'observed': str(ic_), 'expected': str((2 - 3j) * ir_)}, case={'case': c})
                 s3 = lentil.radiometry.Spectrum(s.wave, 3 * s.value + 0.0, waveunit='nm', valueunit=None)
                 if abs(s3.integrate(method=m) - 3 * s.integrate(method=m)) > 1e-9 * (1 + abs(s.integrate(method=m))):
                     ctx.violation({'kind': 'integrate-not-linear', 'method': m}, {'spectrum': c['s']}, case={'case': c})
@@ -118,8 +142,14 @@ def integration_and_binning(ctx, lentil, rng):
             # the same centres written as floats and as integers (all centres of this domain are whole nanometres)
             for m, ctype in (('trapz', 'float'), ('simps', 'float'), ('trapz', 'int'), ('simps', 'int')):
                 centres = [float(sp.rf(x)) for x in c['c']] if ctype == 'float' else [int(sp.rf(x)) for x in c['c']]
-                b = s.bin(centres, interp_method=m, ends=c['ends'], preserve_power=False, waveunit='nm')
                 sig = {'kind': 'bin', 'method': m, 'ends': c['ends']}
+                try:
+                    b = s.bin(centres, interp_method=m, ends=c['ends'], preserve_power=False, waveunit='nm')
+                    s.bin(centres, interp_method=m, ends=c['ends'], preserve_power=True, waveunit='nm')
+                    s.integrate(min(centres), max(centres), method=m)
+                except Exception as ex:
+                    ctx.violation(dict(sig, kind='bin-raises', error=type(ex).__name__), {'spectrum': c['s'], 'centres': centres, 'error': repr(ex)[:200]}, case={'case': c})
+                    continue
                 if ctype == 'int':
                     sig['centres'] = 'integer-typed'
                     sig['edges_between_integers'] = c['odd_spacing']
